@@ -324,7 +324,7 @@ def rule_inventory(ctx, rep):
                      'new hidden state: %s is written at call time by %s but has no discipline under which it cannot '
                      'leak from one use of the library to the next' % (l, sorted({x.fi.short for x in ws})),
                      loc(model.unit_of(w.fi), w.node))
-    rep.floor('R-STATE-INVENTORY', len(by_loc), 12)
+    rep.floor('R-STATE-INVENTORY', len(by_loc), 8)
     rep.extra['state_inventory'] = {l: sorted({w.fi.short for w in ws}) for l, ws in by_loc.items()}
     return by_loc
 
